@@ -27,6 +27,7 @@ inductive Res
   | result
   | emit (turn j : Nat)
   | cast (turn : Nat)
+  | wrapper                   -- the external-location pointer batch that replaces an uploaded result
   deriving DecidableEq, Repr
 
 inductive Ev
@@ -73,6 +74,8 @@ structure Turn where
   emits : Nat          -- EmitMap calls the handler makes
   «end» : End
   bad : Bool           -- the f64 input of this turn is fractional
+  brk : Bool := false     -- the peer goes away: writing this turn's output fails (pipe)
+  capped : Bool := false  -- the external-storage cap refuses this turn's upload before the flush (HTTP)
   deriving Repr
 
 inductive Kind | prod | xch
@@ -85,7 +88,15 @@ structure Sizes where
   r : Nat    -- bytes of the unary result batch
   e : Nat    -- bytes of one EmitMap batch
   c : Nat    -- bytes of one cast batch
+  w : Nat := 0   -- bytes of an external-location pointer wrapper (zero-length columns)
   deriving Repr
+
+/-- What happens to a unary result on a server with external storage (`handleUnary`,
+`serveUnary`): sent inline; uploaded and replaced by the pointer wrapper; refused by the pre-flight
+`max_externalized_response_bytes` check before any upload; uploaded and then refused by the
+post-flush check (`enforceResponseBudgets`). -/
+inductive ExtMode | inline | uploaded | refusedPre | refusedPost
+  deriving DecidableEq, Repr
 
 inductive CastOutcome | none | ok | fail
   deriving DecidableEq, Repr
@@ -117,6 +128,9 @@ returns an error which the scripted handler hands back; `Finish` is an error on 
 def turnFails (k : Kind) (t : Turn) : Bool :=
   decide (t.emits ≥ 2) || t.end == .err || t.end == .panic || (t.end == .fin && k == .xch)
 
+/-- the external cap refuses the cycle (`checkExternalBudget`): only when there is a data batch -/
+def turnCapped (t : Turn) : Bool := t.capped && decide (t.emits ≥ 1)
+
 /-- Events of turn `i` and whether the stream goes on to the next turn. -/
 def turnEvents (k : Kind) (w : Wire) (sz : Sizes) (i : Nat) (t : Turn) : List Ev × Bool :=
   if t.end = .cancel then ([], false)                     -- cancel batch: break before anything
@@ -131,6 +145,9 @@ def turnEvents (k : Kind) (w : Wire) (sz : Sizes) (i : Nat) (t : Turn) : List Ev
       if turnFails k t then
         -- streamErr: out.releaseBatches(); releaseInput(); break
         (pre ++ handler ++ held ++ post, false)
+      else if turnCapped t then
+        -- cap refusal before the flush: out.releaseBatches(); cast released on return; stop
+        (pre ++ handler ++ held ++ post, false)
       else if t.end = .fin then
         -- finished producer: flush what was emitted; break
         (pre ++ handler ++ held ++ post, false)
@@ -138,8 +155,9 @@ def turnEvents (k : Kind) (w : Wire) (sz : Sizes) (i : Nat) (t : Turn) : List Ev
         -- validate(): "No data batch was emitted"; releaseBatches(); releaseInput(); break
         (pre ++ handler ++ post, false)
       else
-        -- flush loop writes and releases the batch; releaseInput(); next turn
-        (pre ++ handler ++ held ++ post, true)
+        -- flush loop writes and releases the batch (also when the write fails: the batch and the
+        -- rest of the cycle are released, then releaseInput()); next turn unless the pipe broke
+        (pre ++ handler ++ held ++ post, !t.brk)
 
 def streamEvents (k : Kind) (w : Wire) (sz : Sizes) : Nat → List Turn → List Ev
   | _, [] => []
@@ -149,6 +167,8 @@ def streamEvents (k : Kind) (w : Wire) (sz : Sizes) : Nat → List Turn → List
 
 inductive Call
   | unary (m : UMethod) (sz : Sizes)
+  /-- a unary call that returns a value on a server with external storage -/
+  | unaryExt (mode : ExtMode) (sz : Sizes)
   | stream (k : Kind) (w : Wire) (sz : Sizes) (turns : List Turn)
   /-- `castRecordBatch` applied to an input whose buffers the framework allocated itself (what an
   externally resolved stream input is), then everything released: `sz.e` = the input batch. -/
@@ -159,6 +179,11 @@ def callEvents : Call → List Ev
   | .unary .echo sz => [.sample, .acq .result sz.r, .rel .result]
   | .unary .badparams _ => []                -- refused before the handler, nothing built
   | .unary _ _ => [.sample]                  -- error / panic / void: no result batch
+  | .unaryExt .inline sz => [.sample, .acq .result sz.r, .rel .result]
+  | .unaryExt .refusedPre sz => [.sample, .acq .result sz.r, .rel .result]
+  -- upload, wrap the pointer, release the result at the swap; the deferred release then frees the
+  -- wrapper — also when the post-flush check replaces the response by the cap error
+  | .unaryExt _ sz => [.sample, .acq .result sz.r, .acq .wrapper sz.w, .rel .result, .rel .wrapper]
   | .stream k w sz turns => streamEvents k w sz 0 turns
   | .castInput w bad sz =>
     -- a failed cast releases the columns it had already cast; the input datum never outlives the call
